@@ -192,7 +192,8 @@ let handle () =
       | EFree n -> Printf.sprintf "F %d" (int_of_nat n) in
     (match run_model fuel steps with
      | None -> "error model run fails (fuel or an entry set twice)"
-     | Some res -> String.concat " || " (List.map (fun (evs, pend) -> String.concat " ; " (List.map ev evs) ^ " | " ^ string_of_int (List.length pend)) res))
+     | Some res -> String.concat " || " (List.map (fun ((evs, pend), rl) -> String.concat " ; " (List.map ev evs) ^ " | " ^ string_of_int (List.length pend) ^ " | " ^
+                                                        String.concat " " (List.map (function None -> "?" | Some l -> lit l) rl)) res))
   | "hds" ->
     (* hds <ini> <fin> <nelems> { <raw> } <nsteps> { <d> <nbase> { <atom> } } : Model/HeadRules.head_step - the clauses and rules of a head
        formula (built through the regenerated create_formula table of heads) at distance d from the state it was introduced at *)
